@@ -231,8 +231,8 @@ class BatchWorld(dbworld.World):
         super().__init__(repo)
         self.inst_colls = {'standard': StubInstColl('standard', True), 'highmem': StubInstColl('highmem', True),
                            'job-private': StubInstColl('job-private', False)}
-        for name, ic, state in instances:
-            self.add_instance(name, ic, state)
+        for name, ic, state, *cores in instances:
+            self.add_instance(name, ic, state, *cores)
         self.rebuild_instances()
 
     def rebuild_instances(self, mirror=None):
